@@ -124,6 +124,47 @@ def c18_dialects(di: int, zp: int, d: int, h: int, mi: int, neg: bool) -> int:
     return verdict(ok, "c18_dialects", di=di, zp=zp, d=d, h=h, mi=mi, neg=neg)
 
 
+USEC_PATTERNS = [0b1000100, 0b1100000, 0b1111000, 0b1000000, 0b1000001]  # d+us, s+us, h+mi+s+us, us, y+us
+
+
+@harness(
+    prop="C18",
+    cubes={"di": range(len(ALL_DIALECTS)), "pi": range(len(USEC_PATTERNS))},
+    bounds={"quick": {"N": 99}, "thorough": {"N": 999}},
+    timeout={"quick": 120, "thorough": 600},
+    witness=[dict(di=0, pi=0, a=1, b=1, c=1, us=1, neg=False)],
+    doc="every dialect template x 5 zero patterns that end in microseconds (days+us, seconds+us, hours..us, us alone, "
+        "years+us), components symbolic 1..N, sign symbolic",
+    stubs=["CrossHair format(int,'') patch"],
+)
+def c18_dialects_usec(di: int, pi: int, a: int, b: int, c: int, us: int, neg: bool) -> int:
+    """
+    bound: 1 <= a <= N and 1 <= b <= N and 1 <= c <= N and 1 <= us <= N
+    """
+    zp = USEC_PATTERNS[pi]
+    pool = [a, b, c]
+    vals = [0, 0, 0, 0, 0, 0, us]
+    j = 0
+    for k in range(6):
+        if (zp >> k) & 1:
+            vals[k] = pool[j]
+            j += 1
+    args = list(vals)
+    if neg:
+        for k in range(7):
+            if args[k] != 0:
+                args[k] = -args[k]
+                break
+    dialect = ALL_DIALECTS[di]
+    iv = Interval(years=args[0], months=args[1], days=args[2], hours=args[3], minutes=args[4],
+                  seconds=args[5], microseconds=args[6])
+    out = iv.get_sql(ctx_for(dialect))
+    exp = reference(vals, neg, dialect)
+    note("rendered", out)
+    note("expected", exp)
+    return verdict(out == exp, "c18_dialects_usec", di=di, pi=pi, a=a, b=b, c=c, us=us, neg=neg)
+
+
 @harness(
     prop="C18",
     cubes={"di": range(len(ALL_DIALECTS)), "kind": [0, 1]},
